@@ -265,3 +265,279 @@ Check standard_output_nul_free_reader :
     render_ok render b -> texts_free cfg b ->
     hides lcfg b -> (forall c buf, fst (c_roll c buf) <= length buf) ->
     ~ In b (ss_out (fst (fst (rbl_run (std_step cfg render) mode c_roll c_plan lcfg fuel lb0 rd core0 (st0, []))))).
+
+(* ---- 18. the concrete plan is the Core of C02/C03 ----
+   `lite_plan` (the plan the C14 model is run with) is exactly the sequence of sink calls that the Core model
+   (Model/SearcherCore.v + Model/Glue.v: SliceByLine::run over match_by_line, fast or slow line path, inverted
+   or not, passthru or not, any line terminator incl. CRLF, line numbers on or off) makes on the slice, when
+   no context lines are requested and the sink always continues: same calls, same order, same kind
+   (matched / other-context), same absolute offsets, same line bytes, same byte count at finish.
+   `ev14` (Model/LitePlanCore.v) translates the Core model's events into this model's events by dropping the
+   line number, which this model does not carry (`ev14_forgets_line_number_only`).
+   Hypotheses: detection off in the Core model (this model owns detection), `find_spec` = the contract of
+   find_by_line_fast of Props/C03 (`slice_eq_ref`; established from the candidate contract by
+   C03 `slice_eq_ref_from_candidate_contract`), and — for `lite_plan`, whose matcher is "a needle occurs in
+   the line" — that the matcher says just that on the lines of the slice (`needle_matcher`).
+   `core_plan_eq_core` is the same for every matcher (`core_plan`: lite_calls with the verdict abstracted). *)
+From RG Require Model.Lines Model.SearcherCore Model.Glue Model.LitePlanCore Proofs.FastPathProofs
+  Proofs.FindSpecProofs Proofs.LitePlanProofs Model.ScriptedMatcher Spec.GrepSpec.
+
+Theorem core_plan_eq_core :
+  forall (cfg : SearcherCore.config) (M : SearcherCore.matcher),
+    SearcherCore.c_binary cfg = SearcherCore.BNone -> SearcherCore.c_before cfg = 0 ->
+    SearcherCore.c_after cfg = 0 -> SearcherCore.c_stop_on_nonmatch cfg = false ->
+    forall s : bytes, FastPathProofs.find_spec cfg M s ->
+    LitePlanCore.result14 (Glue.slice_by_line_run cfg M (fun _ => SearcherCore.Continue) s) =
+    Some (EBegin :: map (call_event 0 s) (LitePlanCore.core_plan cfg (SearcherCore.m_is_match M) s)
+          ++ [EFinish (length s) None]).
+Proof. exact LitePlanProofs.core_plan_eq_core_proof. Qed.
+Print Assumptions core_plan_eq_core.
+
+Theorem lite_plan_eq_core :
+  forall (cfg : SearcherCore.config) (M : SearcherCore.matcher) (needles : list bytes),
+    SearcherCore.c_binary cfg = SearcherCore.BNone -> SearcherCore.c_before cfg = 0 ->
+    SearcherCore.c_after cfg = 0 -> SearcherCore.c_stop_on_nonmatch cfg = false ->
+    forall s : bytes, FastPathProofs.find_spec cfg M s -> LitePlanProofs.needle_matcher cfg M needles s ->
+    LitePlanCore.result14 (Glue.slice_by_line_run cfg M (fun _ => SearcherCore.Continue) s) =
+    Some (EBegin
+          :: map (call_event 0 s)
+                 (lite_plan needles (SearcherCore.c_invert cfg) (SearcherCore.c_passthru cfg)
+                            (LineTerm.lt_byte (SearcherCore.c_lt cfg)) s)
+          ++ [EFinish (length s) None]).
+Proof. exact LitePlanProofs.lite_plan_eq_core_proof. Qed.
+Print Assumptions lite_plan_eq_core.
+
+(* run against run: this model's SliceByLine::run over lite_plan (detection off, a sink that always continues)
+   delivers the events of the Core model's SliceByLine::run *)
+Theorem slice_run_lite_eq_core :
+  forall (cfg : SearcherCore.config) (M : SearcherCore.matcher) (needles : list bytes) (sniff : nat),
+    SearcherCore.c_binary cfg = SearcherCore.BNone -> SearcherCore.c_before cfg = 0 ->
+    SearcherCore.c_after cfg = 0 -> SearcherCore.c_stop_on_nonmatch cfg = false ->
+    forall s : bytes, FastPathProofs.find_spec cfg M s -> LitePlanProofs.needle_matcher cfg M needles s ->
+    LitePlanCore.result14 (Glue.slice_by_line_run cfg M (fun _ => SearcherCore.Continue) s) =
+    Some (rev (snd (slice_run LitePlanCore.sink_K BNone sniff s
+                      (lite_plan needles (SearcherCore.c_invert cfg) (SearcherCore.c_passthru cfg)
+                                 (LineTerm.lt_byte (SearcherCore.c_lt cfg)) s) (length s) (tt, [])))).
+Proof. exact LitePlanProofs.slice_run_lite_eq_core_proof. Qed.
+Print Assumptions slice_run_lite_eq_core.
+
+Theorem ev14_forgets_line_number_only :
+  forall e1 e2 : SearcherCore.event,
+    LitePlanCore.ev14 e1 = LitePlanCore.ev14 e2 -> LitePlanCore.strip_lnum e1 = LitePlanCore.strip_lnum e2.
+Proof. exact LitePlanProofs.ev14_inj. Qed.
+Print Assumptions ev14_forgets_line_number_only.
+
+(* 6./9. instantiated with the plan of the Core model (any matcher, inverted or not, passthru or not): *)
+Theorem slice_quit_no_nul_in_events_core :
+  forall (St : Type) (sink : St -> event -> St * bool) (b : byte) (sniff : nat)
+         (cfg : SearcherCore.config) (M : SearcherCore.matcher) (slice : bytes) (s0 : St),
+    Forall (ev_free b)
+           (snd (slice_run sink (BQuit b) sniff slice
+                           (LitePlanCore.core_plan cfg (SearcherCore.m_is_match M) slice) (length slice) (s0, []))).
+Proof. intros. apply slice_quit_no_nul_in_events. Qed.
+Print Assumptions slice_quit_no_nul_in_events_core.
+
+Theorem standard_output_nul_free_slice_core :
+  forall (pcfg : std_cfg) (render : event -> bytes) (b : byte) (sniff : nat)
+         (cfg : SearcherCore.config) (M : SearcherCore.matcher) (slice : bytes),
+    render_ok render b -> texts_free pcfg b ->
+    sc_mode pcfg = BQuit b \/ sc_mode pcfg = BConvert b ->
+    ~ In b (ss_out (fst (slice_run (std_step pcfg render) (sc_mode pcfg) sniff slice
+                                   (LitePlanCore.core_plan cfg (SearcherCore.m_is_match M) slice)
+                                   (length slice) (st0, [])))).
+Proof. intros. apply standard_output_nul_free_slice; assumption. Qed.
+Print Assumptions standard_output_nul_free_slice_core.
+
+(* non-vacuity: the hypotheses of 18 are satisfiable for every configuration and slice (a matcher that never
+   matches, no needles), and a concrete fast-path run (inverted, needle "b") through both models *)
+Example lite_plan_hyps_satisfiable : forall (cfg : SearcherCore.config) (s : bytes),
+  let M := {| SearcherCore.m_is_match := fun _ => false; SearcherCore.m_find_candidate := fun _ => None;
+              SearcherCore.m_line_term := Some (SearcherCore.c_lt cfg);
+              SearcherCore.m_nonmatching := fun _ => false; SearcherCore.m_find_at := fun _ _ => None |} in
+  FastPathProofs.find_spec cfg M s /\ LitePlanProofs.needle_matcher cfg M [] s.
+Proof.
+  intros cfg s M. split.
+  - apply FindSpecProofs.find_spec_of_cand_proof. intros p ls Hat Hne. cbn. clear. induction ls; constructor; auto.
+  - unfold LitePlanProofs.needle_matcher. clear. induction (GrepSpec.split_lines _ s); constructor; auto.
+Qed.
+
+Example lite_plan_core_example :
+  let cfg := {| SearcherCore.c_lt := LineTerm.LTByte 10; SearcherCore.c_invert := true; SearcherCore.c_after := 0;
+                SearcherCore.c_before := 0; SearcherCore.c_passthru := false; SearcherCore.c_line_number := true;
+                SearcherCore.c_stop_on_nonmatch := false; SearcherCore.c_binary := SearcherCore.BNone;
+                SearcherCore.c_multi_line := false |} in
+  let M := ScriptedMatcher.scripted cfg
+             [ {| ScriptedMatcher.n_anch := false; ScriptedMatcher.n_bytes := [98]%N; ScriptedMatcher.n_real := true |} ]
+             true 1%N in
+  let s := [97; 10; 120; 10; 98; 10; 121; 10; 122]%N in
+  LitePlanCore.result14 (Glue.slice_by_line_run cfg M (fun _ => SearcherCore.Continue) s) =
+    Some (rev (snd (slice_run LitePlanCore.sink_K BNone 4 s (lite_plan [[98%N]] true false 10 s) (length s) (tt, []))))
+  /\ map (fun c => (c_start c, c_end c, c_pos c)) (lite_plan [[98%N]] true false 10 s)
+     = [(0, 2, 6); (2, 4, 6); (6, 8, 9); (8, 9, 9)].
+Proof. vm_compute. split; reflexivity. Qed.
+
+(* ---- 19. the same for EVERY sink behaviour and EVERY detection mode, positions included ----
+   For every reply function without Fail (= every sink that continues or stops, at any call; a deterministic
+   stateful sink is such a function by C16 `stateful_sink_slice`; Fail = I/O error of the printer is C16's),
+   every detection mode of the Core model's Config (None, Quit b, Convert b), every matcher meeting the
+   find_by_line_fast contract, inverted or not, passthru or not, any terminator, no context lines:
+   the Core model's SliceByLine::run delivers exactly the events of this model's `slice_run` over the plan,
+   run with the same replies (`sink_of r`) and the same mode — including every binary_data call and the byte
+   count passed to finish when the sink stops the search (so `c_pos` is Core::pos() at that call).
+   `fastb` says which line path Core takes (constant during a search without stop_on_nonmatch);
+   `core_plan_on fast` differs from `core_plan` only in c_pos under inversion on the slow path. *)
+From RG Require Proofs.LitePlanSim.
+
+Theorem core_run_eq_plan_run :
+  forall (cfg : SearcherCore.config) (M : SearcherCore.matcher) (r : nat -> SearcherCore.reply),
+    (forall i, r i <> SearcherCore.Fail) ->
+    SearcherCore.c_before cfg = 0 -> SearcherCore.c_after cfg = 0 -> SearcherCore.c_stop_on_nonmatch cfg = false ->
+    forall s : bytes, FastPathProofs.find_spec cfg M s ->
+    LitePlanCore.result14 (Glue.slice_by_line_run cfg M r s) =
+    Some (rev (snd (slice_run (LitePlanCore.sink_of r) (LitePlanCore.mode14 (SearcherCore.c_binary cfg))
+                      Glue.default_buffer_capacity s
+                      (LitePlanCore.core_plan_on (LitePlanSim.fastb cfg M) cfg (SearcherCore.m_is_match M) s)
+                      (length s) (0, [])))).
+Proof. exact LitePlanSim.slice_sim_proof. Qed.
+Print Assumptions core_run_eq_plan_run.
+
+(* for lite_plan: whenever its positions are Core's — not inverted, or passthru, or the fast path runs (which
+   is the case for the RegexMatcher of the C14 runs: it advertises the searcher's line terminator) *)
+Theorem lite_run_eq_core_run :
+  forall (cfg : SearcherCore.config) (M : SearcherCore.matcher) (needles : list bytes) (r : nat -> SearcherCore.reply),
+    (forall i, r i <> SearcherCore.Fail) ->
+    SearcherCore.c_before cfg = 0 -> SearcherCore.c_after cfg = 0 -> SearcherCore.c_stop_on_nonmatch cfg = false ->
+    forall s : bytes, FastPathProofs.find_spec cfg M s -> LitePlanProofs.needle_matcher cfg M needles s ->
+    LitePlanSim.fastb cfg M = true \/ SearcherCore.c_invert cfg = false \/ SearcherCore.c_passthru cfg = true ->
+    LitePlanCore.result14 (Glue.slice_by_line_run cfg M r s) =
+    Some (rev (snd (slice_run (LitePlanCore.sink_of r) (LitePlanCore.mode14 (SearcherCore.c_binary cfg))
+                      Glue.default_buffer_capacity s
+                      (lite_plan needles (SearcherCore.c_invert cfg) (SearcherCore.c_passthru cfg)
+                                 (LineTerm.lt_byte (SearcherCore.c_lt cfg)) s)
+                      (length s) (0, [])))).
+Proof. exact LitePlanSim.lite_sim_proof. Qed.
+Print Assumptions lite_run_eq_core_run.
+
+(* the side condition is needed: inverted, no passthru, a matcher searched by the SLOW path (no terminator
+   advertised): when the sink stops at the first line, Core reports the end of that line, lite_plan's c_pos
+   (which mirrors match_by_line_fast_invert) the end of the next matching line.  Events agree, the byte count
+   at finish does not.  (`core_plan_on false` is right there: core_run_eq_plan_run.) *)
+Theorem lite_plan_slow_invert_pos_refuted :
+  exists (cfg : SearcherCore.config) (M : SearcherCore.matcher) (needles : list bytes)
+         (r : nat -> SearcherCore.reply) (s : bytes),
+    (forall i, r i <> SearcherCore.Fail) /\
+    SearcherCore.c_before cfg = 0 /\ SearcherCore.c_after cfg = 0 /\ SearcherCore.c_stop_on_nonmatch cfg = false /\
+    LitePlanProofs.needle_matcher cfg M needles s /\
+    LitePlanSim.fastb cfg M = false /\
+    LitePlanCore.result14 (Glue.slice_by_line_run cfg M r s) =
+      Some [EBegin; EMatched 0 [97; 10]%N; EFinish 2 None] /\
+    rev (snd (slice_run (LitePlanCore.sink_of r) BNone 4 s
+                (lite_plan needles true false 10 s) (length s) (0, []))) =
+      [EBegin; EMatched 0 [97; 10]%N; EFinish 4 None].
+Proof.
+  set (cfg := {| SearcherCore.c_lt := LineTerm.LTByte 10; SearcherCore.c_invert := true; SearcherCore.c_after := 0;
+                 SearcherCore.c_before := 0; SearcherCore.c_passthru := false; SearcherCore.c_line_number := false;
+                 SearcherCore.c_stop_on_nonmatch := false; SearcherCore.c_binary := SearcherCore.BNone;
+                 SearcherCore.c_multi_line := false |}).
+  exists cfg,
+    (ScriptedMatcher.scripted cfg
+       [ {| ScriptedMatcher.n_anch := false; ScriptedMatcher.n_bytes := [98]%N; ScriptedMatcher.n_real := true |} ]
+       true 0%N),
+    [[98%N]], (LitePlanCore.stop_at 1), [97; 10; 98; 10]%N.
+  split; [intro i; unfold LitePlanCore.stop_at; destruct (Nat.ltb i 1); discriminate|].
+  vm_compute. repeat split; repeat constructor.
+Qed.
+Print Assumptions lite_plan_slow_invert_pos_refuted.
+
+(* 6. inside the Core model itself: Quit(b), any sink behaviour — no delivered line contains b *)
+Theorem core_quit_no_nul_in_events :
+  forall (cfg : SearcherCore.config) (M : SearcherCore.matcher) (r : nat -> SearcherCore.reply) (b : byte),
+    (forall i, r i <> SearcherCore.Fail) ->
+    SearcherCore.c_before cfg = 0 -> SearcherCore.c_after cfg = 0 -> SearcherCore.c_stop_on_nonmatch cfg = false ->
+    SearcherCore.c_binary cfg = SearcherCore.BQuit b ->
+    forall s : bytes, FastPathProofs.find_spec cfg M s ->
+    exists evs, Glue.slice_by_line_run cfg M r s = Glue.RunOk evs /\
+      forall e, In e evs ->
+        match e with
+        | SearcherCore.EMatched _ _ l | SearcherCore.EContext _ _ _ l => ~ In b l
+        | _ => True
+        end.
+Proof. exact LitePlanSim.core_quit_events_free_proof. Qed.
+Print Assumptions core_quit_no_nul_in_events.
+
+(* reader strategy: Core::roll without context lines consumes the whole buffer, as lite_roll *)
+Theorem lite_roll_eq_core :
+  forall (cfg : SearcherCore.config) (c : SearcherCore.core) (buf : bytes),
+    SearcherCore.c_before cfg = 0 -> SearcherCore.c_after cfg = 0 ->
+    fst (SearcherCore.roll cfg c buf) = fst (lite_roll tt buf).
+Proof. exact LitePlanSim.lite_roll_eq_core_proof. Qed.
+Print Assumptions lite_roll_eq_core.
+
+(* non-vacuity of 19: a Convert(0) run through both models with a sink that stops at the second line
+   (inverted fast path): binary_data is announced by the initial sniff, the line holding the NUL is delivered
+   after it, finish reports min(offset of the NUL, Core::pos()) *)
+Example core_run_example :
+  let cfg := {| SearcherCore.c_lt := LineTerm.LTByte 10; SearcherCore.c_invert := true; SearcherCore.c_after := 0;
+                SearcherCore.c_before := 0; SearcherCore.c_passthru := false; SearcherCore.c_line_number := true;
+                SearcherCore.c_stop_on_nonmatch := false; SearcherCore.c_binary := SearcherCore.BConvert 0;
+                SearcherCore.c_multi_line := false |} in
+  let M := ScriptedMatcher.scripted cfg
+             [ {| ScriptedMatcher.n_anch := false; ScriptedMatcher.n_bytes := [98]%N; ScriptedMatcher.n_real := true |} ]
+             true 1%N in
+  let s := [97; 10; 120; 0; 10; 98; 10; 121; 10]%N in
+  LitePlanSim.fastb cfg M = true /\
+  LitePlanCore.result14 (Glue.slice_by_line_run cfg M (LitePlanCore.stop_at 3) s) =
+    Some (rev (snd (slice_run (LitePlanCore.sink_of (LitePlanCore.stop_at 3)) (BConvert 0) Glue.default_buffer_capacity s
+                      (lite_plan [[98%N]] true false 10 s) (length s) (0, [])))) /\
+  LitePlanCore.result14 (Glue.slice_by_line_run cfg M (LitePlanCore.stop_at 3) s) =
+    Some [EBegin; EBinary 3; EMatched 0 [97; 10]%N; EMatched 2 [120; 0; 10]%N; EFinish 3 (Some 3)].
+Proof. vm_compute. repeat split; reflexivity. Qed.
+
+(* 7. and 9. inside the Core model: Convert(b) — lines holding b are delivered only after binary_data;
+   Quit(b) or Convert(b) — whatever the sink replies, feeding the delivered events to the standard printer
+   (`std_run` = the fold of `std_step`) writes no b *)
+Theorem core_convert_no_nul_before_notification :
+  forall (cfg : SearcherCore.config) (M : SearcherCore.matcher) (r : nat -> SearcherCore.reply) (b : byte),
+    (forall i, r i <> SearcherCore.Fail) ->
+    SearcherCore.c_before cfg = 0 -> SearcherCore.c_after cfg = 0 -> SearcherCore.c_stop_on_nonmatch cfg = false ->
+    SearcherCore.c_binary cfg = SearcherCore.BConvert b ->
+    forall s : bytes, FastPathProofs.find_spec cfg M s ->
+    exists evs, Glue.slice_by_line_run cfg M r s = Glue.RunOk evs /\ guarded b (map LitePlanCore.ev14 evs).
+Proof. exact LitePlanSim.core_convert_guarded_proof. Qed.
+Print Assumptions core_convert_no_nul_before_notification.
+
+Theorem core_standard_output_nul_free :
+  forall (cfg : SearcherCore.config) (M : SearcherCore.matcher) (r : nat -> SearcherCore.reply) (b : byte)
+         (pcfg : std_cfg) (render : event -> bytes),
+    (forall i, r i <> SearcherCore.Fail) ->
+    SearcherCore.c_before cfg = 0 -> SearcherCore.c_after cfg = 0 -> SearcherCore.c_stop_on_nonmatch cfg = false ->
+    SearcherCore.c_binary cfg = SearcherCore.BQuit b \/ SearcherCore.c_binary cfg = SearcherCore.BConvert b ->
+    sc_mode pcfg = LitePlanCore.mode14 (SearcherCore.c_binary cfg) ->
+    render_ok render b -> texts_free pcfg b ->
+    forall s : bytes, FastPathProofs.find_spec cfg M s ->
+    exists evs, Glue.slice_by_line_run cfg M r s = Glue.RunOk evs /\
+      ~ In b (ss_out (std_run pcfg render (map LitePlanCore.ev14 evs) st0)).
+Proof. exact LitePlanSim.core_standard_output_free_proof. Qed.
+Print Assumptions core_standard_output_nul_free.
+
+Check lite_plan_eq_core :
+  forall (cfg : SearcherCore.config) (M : SearcherCore.matcher) (needles : list bytes),
+    SearcherCore.c_binary cfg = SearcherCore.BNone -> SearcherCore.c_before cfg = 0 ->
+    SearcherCore.c_after cfg = 0 -> SearcherCore.c_stop_on_nonmatch cfg = false ->
+    forall s : bytes, FastPathProofs.find_spec cfg M s -> LitePlanProofs.needle_matcher cfg M needles s ->
+    LitePlanCore.result14 (Glue.slice_by_line_run cfg M (fun _ => SearcherCore.Continue) s) =
+    Some (EBegin
+          :: map (call_event 0 s)
+                 (lite_plan needles (SearcherCore.c_invert cfg) (SearcherCore.c_passthru cfg)
+                            (LineTerm.lt_byte (SearcherCore.c_lt cfg)) s)
+          ++ [EFinish (length s) None]).
+Check core_run_eq_plan_run :
+  forall (cfg : SearcherCore.config) (M : SearcherCore.matcher) (r : nat -> SearcherCore.reply),
+    (forall i, r i <> SearcherCore.Fail) ->
+    SearcherCore.c_before cfg = 0 -> SearcherCore.c_after cfg = 0 -> SearcherCore.c_stop_on_nonmatch cfg = false ->
+    forall s : bytes, FastPathProofs.find_spec cfg M s ->
+    LitePlanCore.result14 (Glue.slice_by_line_run cfg M r s) =
+    Some (rev (snd (slice_run (LitePlanCore.sink_of r) (LitePlanCore.mode14 (SearcherCore.c_binary cfg))
+                      Glue.default_buffer_capacity s
+                      (LitePlanCore.core_plan_on (LitePlanSim.fastb cfg M) cfg (SearcherCore.m_is_match M) s)
+                      (length s) (0, [])))).
